@@ -360,8 +360,12 @@ PRIORITY = ["crash", "error", "weights", "flag", "flag-keep", "eps0", "gf-bound"
 
 def run(chk):
     quick = chk.tier == "quick"
-    ok, log = chk.prove(["extract/Extract_C09.vo", "extract/Extract_ED.vo", "theories/ThermalExamples.vo"])
-    chk.trusted += ["hand-written model coq/theories/Thermal.v (tied by correspondence only)",
+    ok, log = chk.prove(["extract/Extract_C09.vo", "extract/Extract_ED.vo", "theories/ThermalExamples.vo"],
+                        extra_props=["Properties_C19_source.v"])
+    chk.trusted += ["hand-written model coq/theories/Thermal.v: tied by correspondence, and for DensityMatrixPart::truncate (test and flag) and the retention / stripe "
+                    "tests of the four prepare() functions by translator/gen_thermal.py (+ translator/cexpr.py): pattern recognition of those C++ statements, "
+                    "whose output the theorems of Properties_C19_source.v are stated about; the rest of the model (bimap lookups, permutation loop, part "
+                    "constructors) by correspondence only",
                     "extraction: ExtrOcamlBasic, ExtrOcamlNatInt, ExtrOCamlFloats; ocaml/driver_c09.ml; harness/h_ed.cpp + ed_common.h; tools/edlib.py, tools/scen.py"]
     chk.assume += ["floating-point rounding is outside the theorems; slack 1e-12 (1+|value|) on top of each bound",
                    "hypotheses row_norm_c / row_norm_cx of gf_truncation_bound are checked numerically on the dumped operator blocks of every run (they are consequences of C10: the blocks are sub-matrices of c, c^+ in an orthonormal basis)",
@@ -419,7 +423,7 @@ def replay(chk, path):
     if not isinstance(rep, dict) or "scenario" not in rep:
         run(chk)
         return chk.finish()
-    chk.prove(["extract/Extract_C09.vo", "extract/Extract_ED.vo"])
+    chk.prove(["extract/Extract_C09.vo", "extract/Extract_ED.vo"], extra_props=["Properties_C19_source.v"])
     edlib.binaries("real")
     text = "\n".join(l for l in rep["scenario"].strip().split("\n") if not l.startswith("beta")) + "\n"   # keeps the `trunc` history lines
     r0 = edlib.run(rep["scenario"], [], oracle=False)
